@@ -22,28 +22,30 @@ type delivery struct {
 }
 
 type timedRun struct {
-	c          *Cluster
-	rng        *mrand.Rand
-	q          []delivery
-	seq        int
-	tpb        int64
-	delayMax   int64
-	dupPct     int
-	resetDelay int64         // max delay between ProcessBlock and Reset (never for the next primary)
-	resetAt    map[int]int64 // node id -> instant at which the application calls Reset
-	fired      map[int]bool  // node id -> the armed timer already expired
-	lastArm    map[int]int64 // node id -> Due of the timer that fired
-	cut        map[int]bool  // nodes currently cut off from everybody
-	down       map[int]bool  // silent validators (never started)
-	vals       []int
-	h0         uint32
-	target     uint32
-	ledgerSync bool
-	dyn        bool
-	txOff      map[uint32]int64 // height -> offset after the previous proposal at which a transaction shows up (-1: never)
-	txEv       []txEvent
-	propSeen   map[uint32]bool
-	nextSync   int64
+	c           *Cluster
+	rng         *mrand.Rand
+	q           []delivery
+	seq         int
+	tpb         int64
+	delayMax    int64
+	dupPct      int
+	resetDelay  int64         // max delay between ProcessBlock and Reset (never for the next primary)
+	resetAt     map[int]int64 // node id -> instant at which the application calls Reset
+	fired       map[int]bool  // node id -> the armed timer already expired
+	lastArm     map[int]int64 // node id -> Due of the timer that fired
+	cut         map[int]bool  // nodes currently cut off from everybody
+	down        map[int]bool  // silent validators (never started)
+	vals        []int
+	h0          uint32
+	target      uint32
+	ledgerSync  bool
+	dyn         bool
+	txOff       map[uint32]int64 // height -> offset after the previous proposal at which a transaction shows up (-1: never)
+	txEv        []txEvent
+	propSeen    map[uint32]bool
+	nextSync    int64
+	victim      int // node whose inbound traffic is spread over victimDelay (any order within a round), -1: none
+	victimDelay int64
 }
 
 type txEvent struct {
@@ -76,6 +78,9 @@ func (t *timedRun) send(from *Node, p *Payload) {
 			d := int64(0)
 			if t.delayMax > 0 {
 				d = t.rng.Int63n(t.delayMax + 1)
+			}
+			if m.ID == t.victim && t.victimDelay > 0 {
+				d = t.rng.Int63n(t.victimDelay + 1)
 			}
 			t.seq++
 			t.q = append(t.q, delivery{at: t.c.Clk.Now + d, to: m.ID, p: p.clone(), seq: t.rng.Int()})
@@ -297,7 +302,7 @@ func newTimedRun(out *TraceWriter, seed int64, run int, driver string) (*timedRu
 	c := NewCluster(seed+int64(run), out)
 	c.Rng = rng
 	t := &timedRun{c: c, rng: rng, tpb: 1000, resetAt: map[int]int64{}, fired: map[int]bool{}, lastArm: map[int]int64{},
-		cut: map[int]bool{}, down: map[int]bool{}, txOff: map[uint32]int64{}, propSeen: map[uint32]bool{}}
+		cut: map[int]bool{}, down: map[int]bool{}, txOff: map[uint32]int64{}, propSeen: map[uint32]bool{}, victim: -1}
 	return t, rng
 }
 
@@ -360,10 +365,16 @@ func runSync(out *TraceWriter, seed int64, run int, heights int, forceDyn bool) 
 		}
 	}
 	extraWatch := rng.Intn(100) < 25
+	if rng.Intn(100) < 50 && !t.dyn {
+		// one node gets the traffic of a round in any order (spread over 0.6 block times; its view-0 timer is 2 block times)
+		t.victim = rng.Intn(n0)
+		t.victimDelay = 600
+		t.resetDelay = 0
+	}
 	out.Write(RunStart{Call: "RunStart", Run: run, Seed: seed, Driver: "sync", Sync: true,
 		Nodes: append(append([]int{}, t.vals...), map[bool][]int{true: {100}, false: {}}[extraWatch]...), Faulty: []int{},
 		Params: map[string]any{"n0": n0, "h0": t.h0, "target": t.target, "delayMax": t.delayMax, "dup": t.dupPct, "resetDelay": t.resetDelay,
-			"amevH": cfg.AmevH, "maxTpb": cfg.MaxTpb, "tpb": t.tpb, "inc": cfg.Inc, "dyn": t.dyn}})
+			"amevH": cfg.AmevH, "maxTpb": cfg.MaxTpb, "tpb": t.tpb, "inc": cfg.Inc, "dyn": t.dyn, "victim": t.victim}})
 	t.addNodes(cfg, extraWatch)
 	for _, n := range t.c.Nodes {
 		t.setupPool(n)
@@ -380,7 +391,7 @@ func runSync(out *TraceWriter, seed int64, run int, heights int, forceDyn bool) 
 	t.finish(run, validators)
 }
 
-// runFaults: silent validators / partition that heals / amnesia restart, then synchrony.
+// runFaults: silent validators, partitions that heal, amnesia restarts (in combination), then synchrony.
 func runFaults(out *TraceWriter, seed int64, run int, heights int) {
 	t, rng := newTimedRun(out, seed, run, "faults")
 	n0 := []int{4, 4, 4, 7, 5, 6, 10, 4, 7}[rng.Intn(9)]
@@ -396,11 +407,13 @@ func runFaults(out *TraceWriter, seed int64, run int, heights int) {
 	if rng.Intn(3) == 0 {
 		cfg.AmevH = 0
 	}
-	kind := []string{"silent", "cut", "restart", "watch"}[rng.Intn(4)]
+	kind := []string{"silent", "silent", "watch", "mixed", "mixed", "mixed"}[rng.Intn(6)]
 	silent := []int{}
-	switch kind {
-	case "silent", "watch":
-		ns := 1 + rng.Intn(f)
+	ns := rng.Intn(f + 1)
+	if kind != "mixed" && ns == 0 && f > 0 {
+		ns = 1
+	}
+	if ns > 0 {
 		if rng.Intn(2) == 0 { // the first primaries of the first height
 			for k := 0; k < ns; k++ {
 				p := (int(t.h0+1) - k) % n0
@@ -416,9 +429,65 @@ func runFaults(out *TraceWriter, seed int64, run int, heights int) {
 		}
 	}
 	t.target = t.h0 + uint32(heights)
+	// fault script for "mixed": cuts and restarts, time- or event-triggered, all over by syncAt
+	type fev struct {
+		kind    string // "cut" | "restart"
+		nodes   []int
+		at      int64  // time trigger (if trig == "")
+		trig    string // payload type whose broadcast by nodes[0] triggers the fault
+		dur     int64
+		started bool
+		healAt  int64
+		done    bool
+	}
+	var script []*fev
+	start := t.c.Clk.Now
+	if kind == "mixed" {
+		restartBudget := f - len(silent) // an amnesia restart is a fault: silent + restarted validators <= F
+		for k := 0; k < 1+rng.Intn(2); k++ {
+			e := &fev{kind: []string{"cut", "cut", "restart"}[rng.Intn(3)], at: start + rng.Int63n(8*t.tpb)}
+			if e.kind == "restart" {
+				if restartBudget <= 0 {
+					e.kind = "cut"
+				} else {
+					restartBudget--
+				}
+			}
+			var cand []int
+			for _, id := range t.vals {
+				if indexOf(silent, id) < 0 {
+					cand = append(cand, id)
+				}
+			}
+			if e.kind == "cut" {
+				nc := 1
+				if rng.Intn(3) == 0 {
+					nc = 1 + rng.Intn(len(cand))
+				}
+				for _, i := range rng.Perm(len(cand))[:nc] {
+					e.nodes = append(e.nodes, cand[i])
+				}
+				e.dur = []int64{500, 2000, 5000, 9000, 20000}[rng.Intn(5)]
+			} else {
+				e.nodes = []int{cand[rng.Intn(len(cand))]}
+			}
+			if rng.Intn(2) == 0 {
+				e.trig = []string{"Commit", "PreCommit", "PrepareResponse", "PrepareRequest", "ChangeView", "RecoveryRequest"}[rng.Intn(6)]
+				e.at = start + 30*t.tpb // fallback if the trigger never happens
+			}
+			script = append(script, e)
+		}
+	}
+	var desc []map[string]any
+	for _, e := range script {
+		desc = append(desc, map[string]any{"kind": e.kind, "nodes": e.nodes, "at": e.at, "trig": e.trig, "dur": e.dur})
+	}
+	if desc == nil {
+		desc = []map[string]any{}
+	}
 	out.Write(RunStart{Call: "RunStart", Run: run, Seed: seed, Driver: "faults", Sync: false, Nodes: t.vals, Faulty: silent,
 		Params: map[string]any{"n0": n0, "h0": t.h0, "target": t.target, "kind": kind, "silent": silent, "delayMax": t.delayMax,
-			"amevH": cfg.AmevH, "tpb": t.tpb, "nsilent": len(silent)}})
+			"amevH": cfg.AmevH, "tpb": t.tpb, "nsilent": len(silent), "script": desc}})
 	t.addNodes(cfg, false)
 	for _, n := range t.c.Nodes {
 		if indexOf(silent, n.ID) >= 0 {
@@ -440,76 +509,94 @@ func runFaults(out *TraceWriter, seed int64, run int, heights int) {
 		}
 	}
 	live := func() []*Node { return liveNodes }
-	start := t.c.Clk.Now
-	switch kind {
-	case "silent", "watch":
+	if kind != "mixed" {
 		t.loop(start+int64(heights)*200*t.tpb, live, nil)
-	case "cut":
-		// any subset, any moment, any period; then healed
-		nc := 1 + rng.Intn(n0)
-		cutSet := rng.Perm(n0)[:nc]
-		cutAt := start + rng.Int63n(6*t.tpb)
-		dur := []int64{500, 2000, 5000, 9000, 20000}[rng.Intn(5)]
-		state := 0
-		hook := func() {
-			now := t.c.Clk.Now
-			if state == 0 && now >= cutAt {
-				state = 1
-				for _, id := range cutSet {
-					t.cut[id] = true
-				}
-				// whatever is in flight to or from them is lost
-				var q []delivery
-				for _, d := range t.q {
-					if !t.cut[d.to] {
-						q = append(q, d)
-					}
-				}
-				t.q = q
-			}
-			if state == 1 && now >= cutAt+dur {
-				state = 2
-				t.cut = map[int]bool{}
-				// progress is required from here: two more heights for everybody
-				maxH := uint32(0)
-				for _, n := range t.c.Nodes {
-					if n.Height > maxH {
-						maxH = n.Height
-					}
-				}
-				t.target = maxH + 2
-			}
-		}
-		t.target = t.h0 + 1000 // until healed
-		t.loopUntil(func() bool { return state == 2 }, cutAt+dur+1, hook)
-		t.loop(t.c.Clk.Now+400*t.tpb+8*dur, live, hook)
-	case "restart":
-		victim := t.c.Nodes[rng.Intn(n0)]
-		at := start + rng.Int63n(8*t.tpb)
-		done := false
-		hook := func() {
-			if !done && t.c.Clk.Now >= at {
-				done = true
-				delete(t.resetAt, victim.ID)
-				if acc := victim.Accepted[victim.Height+1]; len(acc) > 0 {
-					victim.AdvanceLedger(acc[0])
-				}
-				t.fired[victim.ID] = false
-				t.setupPool(victim)
-				t.after(victim, victim.Restart())
-				maxH := uint32(0)
-				for _, n := range t.c.Nodes {
-					if n.Height > maxH {
-						maxH = n.Height
-					}
-				}
-				t.target = maxH + 2
-			}
-		}
-		t.target = t.h0 + 1000
-		t.loopUntil(func() bool { return done }, at+1, hook)
-		t.loop(t.c.Clk.Now+400*t.tpb, live, hook)
+		t.finish(run, liveNodes)
+		return
 	}
+	// event triggers: watch the broadcasts
+	t.c.OnLine = func(l *Line) {
+		for _, e := range script {
+			if e.started || e.trig == "" || l.N != e.nodes[0] {
+				continue
+			}
+			for _, cb := range l.Cb {
+				if cb.K == "Broadcast" && cb.M.T == e.trig {
+					e.at = t.c.Clk.Now // fire at the next scheduler step: the payload just broadcast is lost with the cut
+				}
+			}
+		}
+	}
+	allOver := func() bool {
+		for _, e := range script {
+			if !e.done {
+				return false
+			}
+		}
+		return true
+	}
+	var maxDur int64
+	hook := func() {
+		now := t.c.Clk.Now
+		for _, e := range script {
+			if !e.started && now >= e.at {
+				e.started = true
+				if e.kind == "cut" {
+					for _, id := range e.nodes {
+						t.cut[id] = true
+					}
+					var q []delivery // whatever is in flight to them is lost
+					for _, d := range t.q {
+						if !t.cut[d.to] {
+							q = append(q, d)
+						}
+					}
+					t.q = q
+					e.healAt = now + e.dur
+					if e.dur > maxDur {
+						maxDur = e.dur
+					}
+				} else {
+					v := t.c.byID[e.nodes[0]]
+					delete(t.resetAt, v.ID)
+					if acc := v.Accepted[v.Height+1]; len(acc) > 0 {
+						v.AdvanceLedger(acc[0])
+					}
+					t.fired[v.ID] = false
+					t.setupPool(v)
+					t.after(v, v.Restart())
+					e.done = true
+				}
+			}
+			if e.started && !e.done && e.kind == "cut" && now >= e.healAt {
+				e.done = true
+				for _, id := range e.nodes {
+					delete(t.cut, id)
+				}
+				for _, o := range script { // overlapping cuts keep their nodes cut
+					if o != e && o.kind == "cut" && o.started && !o.done {
+						for _, id := range o.nodes {
+							t.cut[id] = true
+						}
+					}
+				}
+			}
+		}
+	}
+	t.target = t.h0 + 100000 // until every fault is over
+	t.loopUntil(allOver, start+60*t.tpb, hook)
+	for _, e := range script { // make sure everything healed
+		e.started, e.done = true, true
+	}
+	t.cut = map[int]bool{}
+	maxH := uint32(0)
+	for _, n := range t.c.Nodes {
+		if n.Height > maxH {
+			maxH = n.Height
+		}
+	}
+	t.target = maxH + 2 // progress is required from here: two more heights for every live validator
+	t.loop(t.c.Clk.Now+400*t.tpb+8*maxDur, live, nil)
 	t.finish(run, liveNodes)
 }
 
